@@ -432,6 +432,9 @@ class OpSum(list):
         if len(op_list) == 0:
             return cls()
         prod = op_list[0]
+        if len(op_list) == 1 and isinstance(prod, list):
+            # a single summation is returned as a new list, like every other product
+            return cls(prod)
         for op in op_list[1:]:
             prod = prod * op
         return prod
